@@ -118,6 +118,16 @@ def gen_cases(tier, rng):
                 evs = [b"\x09\x00\x00\x00\x01" + r.bytes(r.below(13), [0x30, 0x31, 0x2d, 0x39, 0x00, 0x41])] + evs
             cases.append({"id": "gs%drand/%d" % (ver, i), "hex": gs_case(ver, 7777, r.below(2) if ver != 2 else 0, None, evs),
                           "meta": {"stream": "gamespy%d-random" % ver, "kind": "random"}})
+    # GameSpy 3: splitnum packets with hostile numbers (beyond the one flagged last, repeated, 127, flags on several), in any order
+    for i in range(400 if tier == "quick" else 12000):
+        ids = [0x00, 0x01, 0x02, 0x03, 0x05, 0x80, 0x81, 0x82, 0x83, 0x7f, 0xff, 0x40]
+        evs = [b"\x09\x00\x00\x00\x01" + r.choice([b"0\x00", b"-5\x00", b"2147483647\x00", b"1\x00"])]
+        for _ in range(1 + r.below(5)):
+            body = r.choice([b"", b"\x00", b"hostname\x00x\x00\x00", b"\x01player_\x00\x00a\x00\x00\x00", b"\x01player_\x00\x05a\x00b\x00\x00\x00",
+                             b"\x02team_t\x00\x00t\x00\x00\x00", r.bytes(r.below(12), [0x00, 0x01, 0x02, 0x5f, 0x41, 0x70, 0xff])])
+            evs.append(b"\x00\x00\x00\x00\x01splitnum\x00" + bytes([r.choice(ids), r.choice([0, 1, 255])]) + body)
+        cases.append({"id": "gs3ids/%d" % i, "hex": gs_case(3, 7777, r.below(2), None if r.chance(2, 3) else {"retries": r.below(2)}, evs),
+                      "meta": {"stream": "gamespy3-packet-numbers", "kind": "random"}})
     # single-game protocols: mutations and every truncation of a few replies
     for game in range(6):
         seeds_g = [rng.next() >> 1 for _ in range(60 if tier == "quick" else 1500)]
@@ -144,6 +154,36 @@ def gen_cases(tier, rng):
     for c in C03.gen_cases(tier, rng.fork("mc")):
         if c["meta"]["stream"] == "malformed":
             cases.append({"id": "mc/" + c["id"], "hex": c["hex"], "meta": {"stream": "minecraft-malformed", "kind": "mutated"}})
+    # Minecraft Java framing: packet length, packet id and string length VarInts at their extremes (negative, overlong, huge)
+    def vi(v):
+        v &= 0xffffffff
+        out = b""
+        while True:
+            b7 = v & 0x7f
+            v >>= 7
+            if v:
+                out += bytes([b7 | 0x80])
+            else:
+                return out + bytes([b7])
+    VEXT = [vi(0), vi(1), vi(2), vi(127), vi(128), vi(16383), vi(2097151), vi(0x7fffffff), vi(-1), vi(-2), vi(-2147483648), b"\xff\xff\xff\xff\xff", b"\x80\x80\x80\x80\x80\x01",
+            b"\xff\xff\xff\xff\x7f", b"\x80", b"\xff\xff"]
+    jtxt = b'{"version":{"name":"x","protocol":5},"players":{"max":2,"online":1},"description":"d"}'
+    for i in range(500 if tier == "quick" else 15000):
+        a, b_, c_ = r.choice(VEXT), r.choice(VEXT[:2] + VEXT), r.choice(VEXT)
+        body = r.choice([jtxt, jtxt[:r.below(len(jtxt))], b"", b"{}", r.bytes(r.below(9), [0x00, 0x22, 0x7b, 0x7d, 0xff])])
+        pick = r.below(4)
+        if pick == 0:
+            stream = vi(len(b_ + c_ + body)) + b_ + c_ + body          # honest outer length, hostile inner fields
+        elif pick == 1:
+            stream = a + vi(0) + c_ + body                              # hostile outer length
+        elif pick == 2:
+            stream = vi(len(vi(0) + vi(len(body)) + body)) + vi(0) + c_ + body   # only the string length is hostile
+        else:
+            stream = a + b_ + c_ + body
+        variant = r.choice([0, 1, 1])
+        js = C03.java_json_of(stream)
+        cases.append({"id": "mcframe/%d" % i, "hex": C03.mc_case(variant, 25565, [], [(stream, r.chance(1, 8))], [js] if js is not None else []),
+                      "meta": {"stream": "minecraft-java-framing", "kind": "random"}})
     # random packets over the boundary alphabet
     for i in range(300 if tier == "quick" else 20000):
         n = 1 + r.below(3)
